@@ -711,6 +711,7 @@ func (e *Exec) runBlock(bi int) {
 		e.res.Stats.Probe("model_expected_halt_but_none")
 	}
 	e.checkBeginBlock(preBB, st, exp, h)
+	e.checkParamsUntouched(preBB, st, "BeginBlock")
 	e.checkState(st, "BeginBlock", "", h)
 
 	// ---- transactions with read-only traffic in between
@@ -767,6 +768,7 @@ func (e *Exec) runBlock(bi int) {
 		mats = e.m.EndBlock()
 	}
 	e.checkMaturities(preEB, st, mats, h)
+	e.checkParamsUntouched(preEB, st, "EndBlock")
 	e.checkSet(st, h+2, "EndBlock")
 	e.checkState(st, "EndBlock", "", h)
 
@@ -948,6 +950,7 @@ func (e *Exec) deliver(bi, ti int, rec *blockRecord, h int64) {
 		return
 	}
 	// which stage did the transaction reach? (observed on balances, not on codes)
+	ambiguous := false
 	stage := "ok"
 	if resp0.Code != 0 {
 		stage = "pre"
@@ -970,8 +973,14 @@ func (e *Exec) deliver(bi, ti int, rec *blockRecord, h int64) {
 		if f.Fee != nil && f.Fee.Sign() == 0 && !dustFee && !pred.NoClaim && pred.AnteOK && !pred.MustReject {
 			stage = "handler"
 		}
+		// ... and without a model (it stopped following the run) the stage of such a transaction is unknown: the
+		// twin replica executes it too instead of skipping it
+		if stage == "pre" && f.Fee != nil && f.Fee.Sign() == 0 && !dustFee && pred.NoClaim && f.Decodable {
+			ambiguous = true
+			e.res.Stats.C("tx_stage_unknown_zero_fee", 1)
+		}
 	}
-	rec.preAnte = append(rec.preAnte, stage == "pre")
+	rec.preAnte = append(rec.preAnte, stage == "pre" && !ambiguous)
 	e.res.Stats.C("tx_"+stage, 1)
 	e.res.Stats.C("tx_kind_"+spec.Kind, 1)
 	signerKey := e.kr.Get(spec.SignBy).Type
@@ -1031,6 +1040,10 @@ func (e *Exec) deliver(bi, ti int, rec *blockRecord, h int64) {
 					"a %s transaction whose message failed (code %d) changed %d key(s) besides the fee, e.g. %s", spec.Kind, resp0.Code, len(extra), extra[0]))
 			}
 			// ... and the two accounts it may touch change by the fee, nothing else
+			if sa := hx(e.kr.Get(spec.Acct).Addr); before.HasKey[sa] != st.HasKey[sa] {
+				e.addViol(viol("C11", "rejected-tx-left-trace", e.step, map[string]string{"stage": "handler-failed", "kind": spec.Kind, "what": "sender-record"},
+					"a %s transaction whose message failed (code %d) changed its sender's account record beyond the balance: key on record %v -> %v", spec.Kind, resp0.Code, before.HasKey[sa], st.HasKey[sa]))
+			}
 			if f.Fee != nil {
 				sa, fc := hx(e.kr.Get(spec.Acct).Addr), moduleAddrHex("fee_collector")
 				paid := new(big.Int).Sub(balOf(before, sa), balOf(st, sa))
@@ -1060,7 +1073,7 @@ func (e *Exec) deliver(bi, ti int, rec *blockRecord, h int64) {
 		if r.idx == 0 {
 			continue
 		}
-		if r.cfg.Twin && stage == "pre" {
+		if r.cfg.Twin && stage == "pre" && !ambiguous {
 			continue
 		}
 		var resp abci.ResponseDeliverTx
